@@ -222,3 +222,19 @@ def stage_rr(t: 'val', o: 'dict') -> 'val':
 @spec
 def stage_mv(t: 'val', o: 'dict') -> 'val':
     return st_reset_variables(t, dict_get(o, 'make_variables')) if on(o, 'make_variables') else t
+
+
+# ---- _make_sort_key: the user's list of sort methods, in the user's order (C20, C05) ---------------------
+# stated on the real function, executed natively (getattr with a computed name and a returned closure are
+# outside the verified subset)
+
+@contract('penman.__main__:_make_sort_key', bounded=True, why='getattr(model, computed name), returned closure')
+def _make_sort_key(keys: 'list', model: 'Model', key_funcs: 'dict') -> 'tuple':
+    requires(all(k in key_funcs for k in keys))
+    # the sort key of a role lists the model's answers in the priority order the user gave ...
+    ensures(all(result[0](role) == [getattr(model, key_funcs[k])(role) for k in keys
+                                    if key_funcs[k] != 'random_order' and hasattr(model, key_funcs[k])]
+                for role in [':ARG1-of', ':polarity', ':op10', ':op2', ':mod', ':domain-of', ':ARG0', ':x9', ':x10'])
+            or any(key_funcs[k] == 'random_order' for k in keys), label='priority-order')
+    # ... and methods that are not questions to the model become keyword switches
+    ensures(result[1] == {key_funcs[k]: True for k in keys if not hasattr(model, key_funcs[k])}, label='switches')
